@@ -644,7 +644,7 @@ Proof.
         -- rewrite Ek; discriminate.
   - inv_some Hs. vsetpc V Epc.
   - (* WFwait *)
-    destruct (c_lock s =? 1); inv_some Hs; vsetpc V Epc.
+    destruct (c_lock s =? 1); [destruct (Nat.eqb ch 2); [|destruct (Nat.eqb ch 3)]|]; inv_some Hs; vsetpc V Epc.
   - (* WLoadR *)
     inv_some Hs.
     apply vinv_thr_mono; [exact V | | reflexivity | simpl; v_hold Epc | simpl; v_bool Epc | simpl; v_bool Epc | simpl; v_mode Epc | v_rk].
@@ -736,7 +736,7 @@ Proof.
     + intros b Hb. unfold upd in Hb. destruct (Nat.eqb_spec b 0%nat); [simpl in Hb; discriminate Hb|eapply Vmo; exact Hb].
     + rewrite Epc in Vrk. exact Vrk.
   - (* RWait *)
-    destruct (c_wcur s =? t_w (c_thr s t)); inv_some Hs; vsetpc V Epc.
+    destruct (c_wcur s =? t_w (c_thr s t)); [destruct (Nat.eqb ch 2); [|destruct (Nat.eqb ch 3)]|]; inv_some Hs; vsetpc V Epc.
   - inv_some Hs. vsetpc V Epc.
 Qed.
 
